@@ -5,7 +5,7 @@ import shutil
 import sys
 import tempfile
 
-from mc import core, lib
+from mc import core, hist, lib
 from scoda.sequences.sequence import Sequence
 
 ENGINE = "E1-sweep"
@@ -16,7 +16,7 @@ RULE = ("all lists of 1-3 well-formed single-channel sequences (note sets over a
         "signature after tick 0")
 ASSUMPTIONS = ["mido's byte-level reading/writing is trusted", "channels are not compared (the writer emits channel 0)",
                "total duration / trailing rests are not part of the statement"]
-REQUIRED_FLAGS = ["leading_rest", "simultaneous_events", "abutting_repeat", "signature_after_tick_0", "all_fifteen_keys",
+REQUIRED_FLAGS = ["after_history", "leading_rest", "simultaneous_events", "abutting_repeat", "signature_after_tick_0", "all_fifteen_keys",
                   "program_change", "control_change", "three_sequences", "default_signature_inserted", "signature_on_non_first_sequence"]
 
 KEYS = ["C", "G", "D", "A", "E", "B", "F#", "C#", "F", "Bb", "Eb", "Ab", "Db", "Gb", "Cb"]
@@ -42,6 +42,9 @@ SIGCFG = [
     [("ts", 0, 4, 4)], [("ts", 0, 4, 4), ("ts", 5, 4, 4)],
     [("cc", 3, 64, 127)], [("cc", 0, 64, 100), ("ks", 5, "Bb"), ("cc", 10, 64, 0)], [("ks", 5, "E"), ("ts", 10, 2, 2), ("pc", 10, 3)],
     [("ks", 3, "Ab")], [("ts", 3, 5, 8), ("ks", 10, "Db")],
+    # different signatures of equal bar length following each other
+    [("ts", 0, 3, 4), ("ts", 10, 6, 8)], [("ts", 0, 4, 4), ("ts", 5, 2, 2)], [("ts", 0, 2, 2), ("ts", 5, 4, 4), ("ts", 30, 8, 8)],
+    [("ts", 3, 6, 4), ("ts", 10, 12, 8)],
 ]
 
 
@@ -58,6 +61,7 @@ def units(ctx):
         yield ("three", i)
     for i in range(len(_al3(ctx))):
         yield ("triples", i)
+    yield from hist.hist_units()
 
 
 def _al3(ctx):
@@ -69,6 +73,10 @@ def S(notes, events):
 
 
 def gen_cases(unit, ctx):
+    if unit[0] == "hist":
+        for h in hist.hist_of_unit(unit):
+            yield {"seed": unit[1], "build": unit[2], "hist": h}
+        return
     kind, i = unit
     al = notes_alpha(ctx)
     if kind == "one":
@@ -142,9 +150,18 @@ def in_force(sig, ticks, default_ts=(4, 4)):
 
 def check_case(case, ctx):
     R = core.Res()
-    seqs = case["seqs"]
-    objs = [lib.seq_abs(s["notes"], s["events"]) if k % 2 == 0 else lib.seq_rel(s["notes"], s["events"])
-            for k, s in enumerate(seqs)]
+    if "hist" in case:
+        # a live sequence with a history (earlier conversions to a MIDI track, in-place edits, aliased messages, ...)
+        live = hist.live_case(case, R, ctx["p"] if ctx["p"] > 0 else 60, 0, 1, hp=30)
+        if live is None:
+            return R
+        obj, notes, events, _ = live
+        seqs = [{"notes": [[n[0], n[1], n[2], 0, n[4]] for n in notes], "events": [list(e) for e in events]}]
+        objs = [obj]
+    else:
+        seqs = case["seqs"]
+        objs = [lib.seq_abs(s["notes"], s["events"]) if k % 2 == 0 else lib.seq_rel(s["notes"], s["events"])
+                for k, s in enumerate(seqs)]
     path = os.path.join(ctx["tmpdir"], f"{os.getpid()}.mid")
     all_sig = [tuple(e) for s in seqs for e in s["events"] if e[0] in ("ts", "ks")]
     ticks = sorted({0} | {e[1] for e in all_sig} | {x for s in seqs for n in s["notes"] for x in (n[0], n[0] + n[1])})
